@@ -207,6 +207,9 @@ C11_GRAPHS = {
     "mutual": (2, [(0, 1), (1, 0)], [0], True),
     "cycle below root": (3, [(0, 1), (1, 2), (2, 1)], [0], True),
     "three cycle": (3, [(0, 1), (1, 2), (2, 0)], [0], True),
+    "cycle next to a leaf": (4, [(0, 1), (0, 2), (2, 3), (3, 2)], [0], True),
+    "self cycle next to a dependency": (3, [(0, 1), (0, 2), (2, 2)], [0], True),
+    "cycle and an unrelated root": (3, [(0, 1), (1, 0)], [2, 0], True),
 }
 
 
@@ -289,11 +292,15 @@ def c11_order(run):
                 except Exception as ex:
                     continue
                 acc.case(key)
+                order = []
                 try:
-                    order = list(orderer(*[classes[r] for r in roots]))
+                    for c_ in orderer(*[classes[r] for r in roots]):
+                        order.append(c_)
                 except SchemaParseError:
                     if not cyclic:
                         acc.fail(key, "acyclic graph refused with the schema-parse error")
+                    elif order:
+                        acc.fail(key, f"cyclic graph: {[c_.__name__ for c_ in order]} was yielded before the schema-parse error (a partial order instead of a refusal)")
                     continue
                 except BaseException as ex:
                     acc.fail(key, f"{type(ex).__name__} from the ordering routine ({'cyclic' if cyclic else 'acyclic'} graph)")
@@ -428,6 +435,19 @@ def c12_names(run):
                 acc.fail(key, f"maps to {a!r}, which is not a usable attribute name (identifier: {a.isidentifier()}, keyword: {keyword.iskeyword(a)}, reserved: {a in RESERVED_PROPERTIES})",
                          extra={"tags": tags})
                 continue
+            try:
+                R = parse_element({"type": "object", "title": "ReqOnly", "required": [n]})
+                rs = list(R.properties.values())
+                if len(rs) != 1 or rs[0].source != n or rs[0].name != a:
+                    acc.fail(key + " [required only]", f"a name listed only in `required` is recorded as name={rs[0].name if rs else None!r} source={rs[0].source if rs else None!r}, "
+                                                      f"expected attribute {a!r} / JSON name {n!r}")
+                else:
+                    k1, r = outcome(R, {n: 1})
+                    k2, _ = outcome(R, {})
+                    if k1 != "ok" or k2 == "ok" or getattr(r, a) != 1:
+                        acc.fail(key + " [required only]", f"required-only JSON name {n!r}: value under that name {k1}, empty object {k2}")
+            except Exception as ex:
+                acc.fail(key + " [required only]", f"{type(ex).__name__}: {ex}")
             try:
                 E = parse_element({"type": "object", "title": "Holder", "properties": {n: {"type": "string"}}})
                 ps = list(E.properties.values())
@@ -687,7 +707,18 @@ def c18_repr(run):
     w = quiet()
     try:
         from statham.schema.elements import (Array as _A, Element as _E, String as _S, Integer as _I, Nothing as _N, Not as _Not, AnyOf as _Any, AllOf as _All)
-        more = [lambda: _A(_S(), additionalItems=False), lambda: _A(_S(), additionalItems=_I()), lambda: _E(additionalItems=False), lambda: _E(additionalItems=_N()),
+        def shared_prop():
+            p_ = Property(_S(), required=True)
+            return _E(properties={"alpha": p_, "beta": p_})
+
+        def shared_prop_two_elements():
+            p_ = Property(_I())
+            _E(properties={"first": p_})
+            return _E(properties={"second": p_})
+        # one Property object under two names: the copy built from the repr has two objects, so its repr may legitimately spell
+        # `source` differently (C18 asks for equality of the rebuilt element, not for textual stability)
+        shared_prop.aliased = shared_prop_two_elements.aliased = True
+        more = [shared_prop, shared_prop_two_elements, lambda: _A(_S(), additionalItems=False), lambda: _A(_S(), additionalItems=_I()), lambda: _E(additionalItems=False), lambda: _E(additionalItems=_N()),
                 lambda: _E(items=_S(), additionalItems=_I()), lambda: _A([], additionalItems=_I()), lambda: _A([]), lambda: _A(_N()), lambda: _Not(_N()),
                 lambda: _Any(_S(), _N()), lambda: _All(_N(), _S()), lambda: _E(properties={"a": Property(_N(), required=True)}),
                 lambda: _E(properties={"a": Property(_A(_S(), additionalItems=False))}), lambda: _Any(_A(_S(), additionalItems=False), _I())]
@@ -725,7 +756,7 @@ def c18_repr(run):
                     continue
                 if not (back == e) or not (e == back):
                     acc.fail(key, f"eval(repr(x)) != x for repr {r[:160]}")
-                if repr(back) != r:
+                if repr(back) != r and not getattr(mk, "aliased", False):
                     acc.fail(key, f"repr is not stable: {r[:120]} -> {repr(back)[:120]}")
         from statham.schema.elements import String, Integer, Element
         props = [lambda: Property(String()), lambda: Property(String(), required=True), lambda: Property(Integer(), source="x"),
@@ -902,6 +933,37 @@ def c19_annotations(run):
                 has_default = not isinstance(getattr(el, "default", NotPassed()), NotPassed)
                 if term[0] != "Maybe" and not (required or has_default):
                     acc.fail(f"{name}/req={required}", f"annotated as always present ({ann}) although neither required nor defaulted")
+        # a model that extends another model, with the base used first: the extension's own always-present attributes must be present
+        from statham.schema.elements import String as _Str, Integer as _Int, Array as _Arr
+        for order in ("base first", "extension first"):
+            class Account(Object):
+                id = Property(_Int(), required=True)
+
+            class Admin(Account):
+                email = Property(_Str(), required=True)
+                level = Property(_Int(default=1))
+
+            class Team(Object):
+                lead = Property(Admin, required=True)
+                members = Property(_Arr(Admin))
+            if order == "base first":
+                outcome(Account, {"id": 1})
+            for doc, M in (({"id": 3}, Admin), ({"id": 3, "email": "e"}, Admin), ({"lead": {"id": 1}}, Team), ({"lead": {"id": 1, "email": "e"}, "members": [{"id": 2}]}, Team),
+                           ({"lead": {"id": 1, "email": "e"}, "members": [{"id": 2, "email": "f"}]}, Team)):
+                key = f"extension of a model ({order}): {M.__name__} <- {jkey(doc)}"
+                k, m = outcome(M, copy.deepcopy(doc))
+                acc.case(key, nontrivial=(k == "ok"))
+                if k != "ok":
+                    continue
+                admins = [m] if M is Admin else [m.lead] + (list(m.members) if not isinstance(m.members, NotPassed) else [])
+                for a_ in admins:
+                    for pname, pr in Admin.properties.items():
+                        t_ = parse_annotation(pr.annotation)
+                        v_ = getattr(a_, pname)
+                        if t_[0] != "Maybe" and isinstance(v_, NotPassed):
+                            acc.fail(key, f"{M.__name__}: attribute {pname} annotated {pr.annotation} (always present) holds NotPassed")
+                        elif not has_type(v_, t_, {"Admin": Admin, "Account": Account}):
+                            acc.fail(key, f"{M.__name__}: attribute {pname} holds {v_!r}, not of the annotated type {pr.annotation}")
     finally:
         w.__exit__(None, None, None)
     return acc.result()
@@ -940,7 +1002,11 @@ C02_DOCS["falsykw.json"] = {"type": "object", "title": "FalsyRoot", "properties"
     "zero": {"type": "object", "title": "Zero", "minProperties": 0, "patternProperties": {}, "dependencies": {}},
     "konst": {"type": "object", "title": "Konst", "const": {}}, "never": {"type": "object", "title": "Never", "enum": []},
     "closed": {"type": "object", "title": "Closed", "additionalProperties": False, "required": []}}}
-C02_ROOTS = ["simple.json", "nested.json", "refs.json", "noprops.json", "compose.json", "array_root.json", "sameshape.json", "falsykw.json"]
+C02_DOCS["descriptions.json"] = {"type": "object", "title": "Descr", "description": "Summary.\n  - first\n  - second", "properties": {
+    "a": {"type": "object", "title": "LeadSpace", "description": "  leading space"}, "b": {"type": "object", "title": "Tabbed", "description": "tab\there"},
+    "c": {"type": "object", "title": "Trailing", "description": "ends with a newline\n"}, "d": {"type": "object", "title": "Blank", "description": "\nstarts with a newline\n\n"},
+    "e": {"type": "object", "title": "Indented", "description": "Usage:\n    indented example line\nend"}, "f": {"type": "object", "title": "Plain", "description": "plain"}}}
+C02_ROOTS = ["simple.json", "nested.json", "refs.json", "noprops.json", "compose.json", "array_root.json", "sameshape.json", "falsykw.json", "descriptions.json"]
 C02_VALUES = [{}, {"a": "s"}, {"a": "s", "b": 1}, {"a": 1}, {"inner": {"n": 1}}, {"inner": {}}, {"list": [{"k": "s"}, {"k": 1}]}, {"list": [{"k": "s"}]},
               {"untitled": {"z": True}}, {"untitled": {"z": 1}}, {"tuple": [{"k": 1}, "s"]}, {"tuple": [{"k": "s"}]}, {"a": {"x": "s"}}, {"a": {"x": 1}},
               {"c": {"z": 1}}, {"c": {}}, {"d": [{"y": 1}]}, {"d": [{"y": 1, "w": 2}]}, {"k": {"v": "s"}}, {"k": {"v": 1}}, {"k": {}}, {"u": "s", "m": None},
@@ -1168,7 +1234,7 @@ def c03_json(run):
     fm = registered_formats()
     vals = gen.values_for(None)
     if run.tier == "quick":
-        vals = vals[::2] + [{"a": "x"}, {"a": 1}, {"b": "x"}, {"class": "k"}, {"a-b": 1}, [1], ["a"], ["a", 1], [1, "x"], []]
+        vals = vals[::2] + [{"a": "x"}, {"a": 1}, {"b": "x"}, {"class": "k"}, {"a-b": 1}, [1], ["a"], ["a", 1], [1, "x"], [], {"": "x"}, {"blank": "x"}, {"": 1}, {"": "x", "other": 1}]
 
     def check(label, elements, kwargs, tags=None):
         key = label
@@ -1320,6 +1386,14 @@ def c03_extra():
             pass
         return [Array([E1, E2])], {}
 
+    def empty_json_name():
+        return [Element(properties={"blank": Property(String(), source="", required=True), "other": Property(Integer())}, additionalProperties=False)], {}
+
+    def empty_json_name_class():
+        class EmptyName(Object, additionalProperties=False):
+            blank = Property(String(), source="", required=True)
+        return [EmptyName], {}
+
     def inherited_required():
         class Base(Object, required=["id"]):
             id = Property(Integer())
@@ -1344,7 +1418,7 @@ def c03_extra():
         class D(Object):
             k = Property(Integer(), required=True)
         return [Array(D)], {"definitions": {"extra": Integer(minimum=0)}}
-    return {"inherited required": inherited_required, "shared required list": shared_required_list, "same-shaped classes": same_shape_classes, "derived same shape": derived_same_shape, "two empty classes": two_empty_classes,
+    return {"empty JSON name": empty_json_name, "empty JSON name (class)": empty_json_name_class, "inherited required": inherited_required, "shared required list": shared_required_list, "same-shaped classes": same_shape_classes, "derived same shape": derived_same_shape, "two empty classes": two_empty_classes,
             "shared class": shared, "two roots": two_roots, "primary referenced by another root": primary_referenced,
             "caller definitions": with_definitions, "caller definitions + class": definitions_class,
             "empty tuple items closed": lambda: ([Array([], additionalItems=False)], {}), "items nothing": lambda: ([Array(Nothing())], {}),
@@ -1361,7 +1435,11 @@ def c06_roundtrip(run):
         {"type": "object", "title": "Cmd", "description": "A command.\n", "properties": {"a": {"type": "string"}}},
         {"type": "object", "title": "Cmd", "description": "  leading\n    indented block\n", "properties": {"a": {"type": "string"}}},
         {"type": ["string", "null"], "default": None}, {"type": "object", "title": "N", "properties": {"p": {"type": ["integer", "null"], "default": None}}}]
-    docs += [{"properties": {"my-prop": {"type": "string"}}, "required": ["my-prop"]}, {"properties": {"class": {"type": "integer"}, "$id": {}}, "required": ["class", "$id", "other"]},
+    docs += [{"type": "object", "title": "Order", "properties": {"billing": {"type": "object", "title": "Address", "properties": {"street": {"type": "string"}}},
+                                                                 "shipping": {"type": "object", "title": "Address", "properties": {"zip": {"type": "integer"}}},
+                                                                 "third": {"type": "object", "title": "Address", "properties": {"geo": {"type": "number"}}}}},
+             {"type": "array", "items": [{"type": "object", "title": "Item v 2", "properties": {"a": {}}}, {"type": "object", "title": "Item v 2", "properties": {"b": {}}}]},
+             {"properties": {"my-prop": {"type": "string"}}, "required": ["my-prop"]}, {"properties": {"class": {"type": "integer"}, "$id": {}}, "required": ["class", "$id", "other"]},
              {"properties": {"a-b": {"type": "string"}, "ok": {}}, "required": ["ok", "a-b"]},
              {"type": "object", "title": "Ren", "properties": {"my-prop": {"type": "string"}}, "required": ["my-prop"]}]
     # annotations (description / default) on every non-object shape too: a description on a typed, multi-typed, composed or untyped
